@@ -16,7 +16,7 @@ from concurrent.futures import ThreadPoolExecutor
 
 import irbuild
 import sxlib
-from sxlib import AnalysisBroken, VERIF, WORK, callee_name
+from sxlib import AnalysisBroken, VERIF, WORK, REPO, callee_name
 from core import Obligation
 
 IRX = os.path.join(VERIF, "engines", "irx")
@@ -127,16 +127,16 @@ def obligations_for(config, tier):
             text = ("no value derived from a secret marked in ctime_tests.c%s may steer a branch, an address, a copy length, a division or an "
                     "indirect call anywhere under %s" % (" or from the context's blinding state" if mode != "plain" else "", api))
             if not sinks:
-                obs.append(Obligation("R-CT", oid, loc.replace("/repo/", ""), api, text, True,
+                obs.append(Obligation("R-CT", oid, loc.replace(REPO + "/", ""), api, text, True,
                                       "no sink in any function on any path in any calling context (%s pass)" % mode, props=PROPS))
             else:
                 s = sinks[0]
-                obs.append(Obligation("R-CT", oid, s["where"].replace("/repo/", ""), api, text, False,
+                obs.append(Obligation("R-CT", oid, s["where"].replace(REPO + "/", ""), api, text, False,
                                       "%s at %s in %s; secret introduced at %s; call chain %s%s"
-                                      % (s["kind"], s["where"].replace("/repo/", ""), s["function"], s["origin"].replace("/repo/", ""),
+                                      % (s["kind"], s["where"].replace(REPO + "/", ""), s["function"], s["origin"].replace(REPO + "/", ""),
                                          s["chain"].strip(" >"), ("; +%d more sinks" % (len(sinks) - 1)) if len(sinks) > 1 else ""), props=PROPS))
         for i, s in enumerate(orphan):
-            obs.append(Obligation("R-CT", "R-CT:%s:other#%d" % (mode, i + 1), s["where"].replace("/repo/", ""), s["function"],
+            obs.append(Obligation("R-CT", "R-CT:%s:other#%d" % (mode, i + 1), s["where"].replace(REPO + "/", ""), s["function"],
                                   "no secret-dependent control flow or address outside the API calls either", False,
                                   "%s at %s in %s; origin %s; chain %s" % (s["kind"], s["where"], s["function"], s["origin"], s["chain"]), props=PROPS))
     st = {"config": config, "apis": len(apis), "positive_control_sinks": nctl,
